@@ -1,4 +1,4 @@
-\* every interleaving of the critical sections; all invariants, the window observer, action properties
+\* MCRpc_full.cfg -- generated from checks/X_limits.py (job rpc_full_nowatch); run: tlc -config MCRpc_full.cfg MCRpcLimits.tla
 CONSTANTS
   Keys = {"a", "b"}
   Reqs = {1, 2, 3}
@@ -10,11 +10,11 @@ CONSTANTS
   RateOn = TRUE
   Atomic = FALSE
   DeferRelease = TRUE
-  WatchTime = 2
-  WatchEvict = 2
+  WatchTime = 0
+  WatchEvict = 0
 INIT MCInit
-NEXT MCNext
 VIEW View
-INVARIANTS TypeOK ConnBound SlotsMatchHandlers WsGaugeExact QuiescentFree CacheBound LimitersSound EvictionNeedsDistinctKeys WindowBound NoStaleWhenAtomic
-PROPERTIES KeysIndependent TokensOnlyRefillByTime
 CHECK_DEADLOCK FALSE
+NEXT MCNextNoWatch
+INVARIANTS TypeOK ConnBound SlotsMatchHandlers WsGaugeExact QuiescentFree CacheBound LimitersSound EvictionNeedsDistinctKeys
+PROPERTIES KeysIndependent TokensOnlyRefillByTime
